@@ -720,6 +720,12 @@ def _atom(p, name):
         return m.TRUE()
     if name == "F":
         return m.FALSE()
+    if name in ("Eb.a&b", "Ab.a|b", "Ea.a&b"):
+        # not atoms: quantified skeleton fragments used as leaves, so that one quantified node occurs
+        # both below a quantifier and at another position of the same (hash-consed) formula
+        a, b = p.sym("a", BOOL), p.sym("b", BOOL)
+        return {"Eb.a&b": m.Exists([b], m.And(a, b)), "Ab.a|b": m.ForAll([b], m.Or(a, b)),
+                "Ea.a&b": m.Exists([a], m.And(a, b))}[name]
     x, y = p.sym("x", INT), p.sym("y", INT)
     if name == "x<=y":
         return m.LE(x, y)
@@ -939,6 +945,8 @@ def parts(ctx):
       32 if q else 128,
       mid_ops=_names("not", "or", "forall_b", "exists_a") if q else
       _names("not", "or", "implies", "forall_b", "exists_a", "forall_a"), max_new=1)
+    A("q-shared-d2", skeleton(("a", "Eb.a&b", "Ab.a|b") + (() if q else ("Ea.a&b", "b")), binders=("a", "b"),
+                              ops=("not", "and", "or", "iff")), 2, 16, max_new=1 if q else None)
     A("q-bv-d2", skeleton(("a", "u=v", "w<2"), binders=("u", "uv", "w", "au"), ops=("not",) + _BIN), 2,
       32, max_new=1 if q else None)
     A("q-bv-d3", skeleton(("u<v", "w=z"), binders=("u", "v", "w", "uw"), ops=("not",) + _BIN), 3,
@@ -958,6 +966,11 @@ def parts(ctx):
     A("times-real-d2", arith(REAL, nsyms=2, consts=(Fraction(1, 2),)), 2, 16, procs=("times",), dom=DT)
     A("times-nary-d2", arith(INT, nsyms=2, nary3=True), 2, 16 if q else 64, procs=("times",),
       top_ops=_names("plus3", "times3"), max_new=1 if q else 2, dom=DT)
+    # subtraction of n-ary products (leading / inner -1 and other constants)
+    A("times-minus-nary-int-d2", arith(INT, nsyms=2, consts=(-1, 2), nary3=True), 2, 16, procs=("times",),
+      mid_ops=_names("times3", "times") if q else _names("times3", "times", "plus3"), top_ops=_names("minus"), dom=DT)
+    A("times-minus-nary-real-d2", arith(REAL, nsyms=2, consts=(Fraction(-1), Fraction(1, 2)), nary3=True), 2, 16,
+      procs=("times",), mid_ops=_names("times3"), top_ops=_names("minus"), dom=DT)
     A("times-formula-d3", arith_in_formula, 3, 16, procs=("times",),
       mid_ops=_names("le", "not", "forall_x") if q else _names("le", "eq", "not", "forall_x"),
       top_ops=_names("and", "not", "exists_y"),
